@@ -609,6 +609,26 @@ func emptyOnlyWithoutBody(p *Prog, fn *ssa.Function, meta ssa.Value, fld *types.
 	}
 	// conditions under which the body is drained
 	drainConds := drainConditions(p, fn)
+	// ... or a boolean parameter for which every caller passes its own drain condition (the
+	// header-writing part of handle extracted into a helper: refactoring B21_r1)
+	for i, prm := range fn.Params {
+		if !isBoolType(prm.Type()) {
+			continue
+		}
+		edges := p.Callers(fn)
+		all := len(edges) > 0
+		for _, e := range edges {
+			if e.Kind != "static" || e.Site == nil || i >= len(e.Site.Common().Args) || !drainConditions(p, e.Caller)[e.Site.Common().Args[i]] {
+				all = false
+			}
+		}
+		if all {
+			if drainConds == nil {
+				drainConds = map[ssa.Value]bool{}
+			}
+			drainConds[prm] = true
+		}
+	}
 	if len(drainConds) == 0 {
 		return false
 	}
